@@ -17,6 +17,9 @@ def run(rep):
     i2(rep, w)
     i3(rep, w)
     i4(rep, w)
+    if rep.tier == 'thorough':
+        import witness
+        witness.run_witnesses(rep, 'C11', ['W1StringConstructorIsPrivate', 'W2StringFieldsArePrivate'])
 
 
 def i1(rep, w):
